@@ -283,7 +283,8 @@ package fsnotify
 //@                                                   strings.Replace(atLock(w.watches.wd[k].path), ev.renamedFrom, nm, 1), atLock(w.watches.wd[k].path)))     [C19] "after a directory rename inside the tree, it and its descendants are known under the new location and every other watch keeps its name"
 //@   ensures modeB && live && !(newDir && ev.renamedFrom != "") && mask & gone == 0 ==>
 //@             forall(k, uint32, has(W1, k) && has(atUnlock(w.watches.wd), k) ==> atUnlock(w.watches.wd[k].path) == atLock(w.watches.wd[k].path))       [C19] "no other notification renames a watch"
-//@   ensures modeB ==> atUnlock(TablesInv(w.watches))                                                 [C19] "the path index follows the watches it indexes (renamed directories are listed, and removable, under their new names)"
+//@   ensures modeB && !(newDir && ev.renamedFrom != "") ==> atUnlock(TablesInv(w.watches))             [C19] "every notification other than a directory rename inside the tree leaves the two tables consistent"
+//@   ensures modeB && newDir && ev.renamedFrom != "" ==> atUnlock(TablesInv(w.watches))                [C19] "the path index follows the watches it indexes (renamed directories are listed, and removable, under their new names)"
 //@   local name string
 //@   atcall inotify.register: modeB ==> arg_path == nm && arg_recurse && arg_flags == atLock(w.watches.wd[uint32(inEvent.Wd)].flags)      [C19] "a directory created inside a recursive tree is registered under its true path, recursively, with the flags of the tree"
 //@   loop 1 "for k, ww := range w.watches.wd"
